@@ -61,6 +61,12 @@ def run_case(ctx, S, a, b, m, tag, reuse=None):
             m = float(m)  # a count given as a float with an integral value is the same count
             ctx.path("float-count")
         ticks = s.ticks(m) if m is not None else s.ticks()
+        if reuse == "result-mutated-then-asked-again" and isinstance(ticks, list):
+            # what the caller does with a returned list is the caller's business: asking again gives the ticks again
+            ticks.reverse()
+            del ticks[: len(ticks) // 2 + 1]
+            ticks = s.ticks(m) if m is not None else s.ticks()
+            ctx.path("result-mutated-then-asked-again")
         ticks = list(ticks)
     except Exception as e:
         ctx.judge(tag, VIOLATED, case, finding="raised %s: %s" % (type(e).__name__, e), key="raised " + type(e).__name__)
@@ -86,7 +92,7 @@ def worker(ctx, shard):
     rng = ctx.rng("ticks%d" % shard["sub"])
     for _ in range(shard["n"]):
         a, b, m, tag = timedom.gen_time_domain(rng)
-        run_case(ctx, S, a, b, m, tag, reuse=rng.choice([None, None, None, "same-object", "copy", "copy-sibling-asked-first"]))
+        run_case(ctx, S, a, b, m, tag, reuse=rng.choice([None, None, None, "same-object", "copy", "copy-sibling-asked-first", "result-mutated-then-asked-again"]))
     ctx.event("TimeScale.ticks", tm.events["ticks"])
     ctx.event("calendar.calls", sum(cm.calls.values()))
     for k, v in tm.paths.items():
